@@ -76,6 +76,9 @@ def cases(tier, seed):
         for i in range(0, len(listonly), 64):
             yield ['list', wi, listonly[i:i + 64]]
         yield ['seedless', wi, None]
+        # negative and very large seeds in every mode (they reach the children
+        # through the re-serialised command line)
+        yield ['modes', wi, [-1, -7, 2 ** 31, 2 ** 63 + 1]]
     yield ['interp', 256 if tier == 'quick' else 4096, None]
 
 
@@ -199,6 +202,16 @@ def run_modes(wi, seeds, listonly):
             viol.append(('list_mode_ran_code', sig, 'seed %s: trace %s' % (s, r.trace[:5])))
         if listonly:
             continue
+        # --list-tests together with -j N lists the same order
+        r = runrt.run_world(spec, seed_args(s) + ['--list-tests', '-j2'], probe=False)
+        evals += 1
+        if r.escaped:
+            viol.append(('run_aborted', {'mode': 'list_j2'}, 'seed %s: %s' % (s, r.escaped_tb)))
+        else:
+            # (the -j parent's artificial empty first layer has no tests)
+            lj = {L: ts for L, ts in parse_listing(r.text).items() if ts or L in ref}
+            if lj != ref:
+                viol.append(('differs_from_reference_permutation', {'mode': 'list_j2'}, 'seed %s: --list-tests -j2 lists %s, reference %s' % (s, lj, ref)))
         for mode, argv, sp in (('seq', [], spec), ('j2', ['-j2'], spec),
                                ('resumed', [], spec_nie)):
             sig = {'mode': mode}
